@@ -148,10 +148,6 @@ def judge_variant(ctx, case, base, variant_name, flat, errs, log, data):
     ctx.count("variants")
     ctx.add("variant_kinds", variant_name.split(":")[0])
     c = dict(case, variant=variant_name)
-    if flat != bflat and variant_name.startswith("bom") and variant_name.endswith("utf-16le") and data[:1] == "\x00":
-        ctx.known_finding("utf16le-bom-plus-nul-taken-for-utf32-bom", c,
-                          "%s: FF FE 00 00 is taken for a UTF-32LE BOM, which no decoder exists for; the BOM is then ignored" % variant_name)
-        return
     if flat != bflat:
         ctx.violation("tree-differs:" + variant_name.split(":")[0], c,
                       "%s: %s" % (variant_name, canon.diff_text(bflat, flat, "parse(str)", variant_name)))
